@@ -25,6 +25,9 @@ import (
 type c06Case struct {
 	Path string       `json:"path"`
 	Cfg  kit06.Config `json:"config"`
+	// TargetDB (incremental path): 0 means target.db=-1 (keep the source database), n>0 means
+	// everything is written into database n-1 of the target
+	TargetDB int `json:"target_db_plus1"`
 }
 
 var c06Reg = mredis.NewRegistry()
@@ -94,10 +97,17 @@ func c06Incr(t *testing.T, c c06Case) (string, string) {
 	cmd := func(argv ...string) {
 		segs = append(segs, srcSym{Argv: argv}.bytes())
 	}
+	// every SET carries its source database in the value, so that the decision for (db, key) is
+	// observable in the target's command log even when target.db folds all databases into one
+	sent := map[string]int{}
+	set := func(db int, k string) {
+		cmd("set", k, fmt.Sprintf("v%d", db))
+		sent[fmt.Sprintf("%d/%s", db, k)]++
+	}
 	for _, db := range kit06.DBs {
 		cmd("SELECT", fmt.Sprint(db))
 		for _, k := range kit06.Keys() {
-			cmd("set", k, "v")
+			set(db, k)
 		}
 		cmd("EVAL", "return 1", "0")
 		cmd("evalsha", "abc", "0")
@@ -105,12 +115,23 @@ func c06Incr(t *testing.T, c c06Case) (string, string) {
 		cmd("OpInfo", "x")
 		cmd("PUBLISH", "__sentinel__:hello", "x")
 	}
+	// second visit in reverse order (the master re-selects a database it has used before; the
+	// last database is selected twice in a row)
+	for i := len(kit06.DBs) - 1; i >= 0; i-- {
+		db := kit06.DBs[i]
+		cmd("SELECT", fmt.Sprint(db))
+		for _, k := range kit06.Keys() {
+			if len(k) == 1 {
+				set(db, k)
+			}
+		}
+	}
 	// one segment: the whole stream
 	var all []byte
 	for _, s := range segs {
 		all = append(all, s...)
 	}
-	cfg := syncConfig{TargetDB: -1, SenderCount: 64, SenderSize: 1 << 20, StartOffset: 0}
+	cfg := syncConfig{TargetDB: c.TargetDB - 1, SenderCount: 64, SenderSize: 1 << 20, StartOffset: 0}
 	srv := mredis.New(mredis.Options{})
 	// syncExecute applies cfg first; the filter lists of this case are installed on top
 	restore := func() { kit06.Reset() }
@@ -119,30 +140,57 @@ func c06Incr(t *testing.T, c c06Case) (string, string) {
 	if res.Abort != "" {
 		return "abort", "incremental sync aborts"
 	}
-	if k, w := kit06.Compare(c.Cfg, "incr", c06Collect(srv)); k != "" {
+	got := map[string]bool{}
+	cnt := map[string]int{}
+	scripts := map[int]int{}
+	curSrc := -1 // source database of the most recent forwarded SET (script commands carry none)
+	for _, a := range res.Applied {
+		n := a.Name()
+		switch {
+		case n == "set" && len(a.Argv) == 3 && strings.HasPrefix(string(a.Argv[2]), "v"):
+			src := 0
+			fmt.Sscanf(string(a.Argv[2]), "v%d", &src)
+			want := src
+			if c.TargetDB != 0 {
+				want = c.TargetDB - 1
+			}
+			if a.DB != want {
+				return "wrong-target-db", fmt.Sprintf("key %q of source db %d was written into target db %d, expected %d", string(a.Argv[1]), src, a.DB, want)
+			}
+			got[fmt.Sprintf("%d/%s", src, string(a.Argv[1]))] = true
+			cnt[fmt.Sprintf("%d/%s", src, string(a.Argv[1]))]++
+			curSrc = src
+		case n == "eval" || n == "evalsha" || n == "script":
+			scripts[a.DB]++
+		case n == "opinfo":
+			return "bookkeeping-forwarded", "the internal OPINFO command reached the target"
+		case n == "publish":
+			return "sentinel-forwarded", "a sentinel hello publish reached the target"
+		}
+	}
+	_ = curSrc
+	if k, w := kit06.Compare(c.Cfg, "incr", got); k != "" {
 		return k, w
 	}
+	for key, n := range cnt {
+		if n != sent[key] {
+			return "count", fmt.Sprintf("%s was sent %d times by the source and forwarded %d times", key, sent[key], n)
+		}
+	}
 	// script commands: forwarded exactly when filter.lua is off (and the database passes)
+	wantScripts := map[int]int{}
 	for _, db := range kit06.DBs {
-		want := 0
 		if kit06.DBPasses(c.Cfg, db) && !c.Cfg.Lua {
-			want = 3
+			tdb := db
+			if c.TargetDB != 0 {
+				tdb = c.TargetDB - 1
+			}
+			wantScripts[tdb] += 3
 		}
-		got := 0
-		for _, a := range res.Applied {
-			n := a.Name()
-			if a.DB == db && (n == "eval" || n == "evalsha" || n == "script") {
-				got++
-			}
-			if n == "opinfo" {
-				return "bookkeeping-forwarded", "the internal OPINFO command reached the target"
-			}
-			if n == "publish" {
-				return "sentinel-forwarded", "a sentinel hello publish reached the target"
-			}
-		}
-		if got != want {
-			return "script-commands", fmt.Sprintf("db %d: %d of the 3 script commands were forwarded, expected %d (filter.lua=%v)", db, got, want, c.Cfg.Lua)
+	}
+	for _, db := range append([]int{c.TargetDB - 1}, kit06.DBs...) {
+		if scripts[db] != wantScripts[db] {
+			return "script-commands", fmt.Sprintf("target db %d: %d script commands were forwarded, expected %d (filter.lua=%v)", db, scripts[db], wantScripts[db], c.Cfg.Lua)
 		}
 	}
 	return "", ""
@@ -184,22 +232,33 @@ func TestVerif_C06(t *testing.T) {
 				ev.Cap("time budget")
 				break
 			}
-			c := c06Case{Path: path, Cfg: cfg}
-			var k, w string
-			if path == "full" {
-				k, w = c06Full(c)
-			} else {
-				k, w = c06Incr(t, c)
+			// incremental path: target.db = -1 and every fixed target database that coincides with a
+			// source database (filtered or not), plus one the source never selects
+			tdbs := []int{0}
+			if path == "incr" {
+				for _, db := range kit06.DBs {
+					tdbs = append(tdbs, db+1)
+				}
+				tdbs = append(tdbs, 5+1)
 			}
-			n++
-			if k != "" {
-				ev.Violate("C06|"+path+"|"+k, fmt.Sprintf("%s (path %s, %s)", w, path, cfg), c)
-			}
-			ev.Outcome(path + ":" + k)
-			h := ev.HashS(path + cfg.String())
-			ev.State(h)
-			if strings.Contains(cfg.String(), "[") {
-				ev.Nontrivial(h)
+			for _, tdb := range tdbs {
+				c := c06Case{Path: path, Cfg: cfg, TargetDB: tdb}
+				var k, w string
+				if path == "full" {
+					k, w = c06Full(c)
+				} else {
+					k, w = c06Incr(t, c)
+				}
+				n++
+				if k != "" {
+					ev.Violate("C06|"+path+"|"+k, fmt.Sprintf("%s (path %s, target.db=%d, %s)", w, path, tdb-1, cfg), c)
+				}
+				ev.Outcome(path + ":" + k)
+				h := ev.HashS(fmt.Sprintf("%s%s%d", path, cfg.String(), tdb))
+				ev.State(h)
+				if strings.Contains(cfg.String(), "[") {
+					ev.Nontrivial(h)
+				}
 			}
 			if n%40 == 1 {
 				ev.Sample(path, map[string]interface{}{"config": cfg, "keys_per_db": len(kit06.Keys()), "dbs": kit06.DBs})
